@@ -48,6 +48,7 @@ var (
 	cDupIdx       = simrt.RegisterCounter("probe_device_list_with_duplicate_index")
 	cNotModelled  = simrt.RegisterCounter("probe_block_not_judged_by_device_model")
 	cSubBand      = simrt.RegisterCounter("op_sub_band_configuration")
+	cPlaceholder  = simrt.RegisterCounter("op_add_placeholder_slot_frequency_0")
 	cFreshChanged = simrt.RegisterCounter("probe_fresh_config_differs_after_run")
 	cNotConverged = simrt.RegisterCounter("probe_not_converged_after_faults")
 
@@ -190,6 +191,12 @@ func (w *world) bandOp(r *sim.Rand) {
 		minDR, maxDR := w.m.CFMinDR, w.m.CFMaxDR
 		if r.Intn(4) == 0 {
 			minDR, maxDR = 6, 6
+		}
+		if r.Intn(6) == 0 {
+			// a placeholder slot (frequency 0): added switched off, may be
+			// enabled later like any other channel
+			f = 0
+			simrt.Count(cPlaceholder)
 		}
 		if err := w.b.AddChannel(f, minDR, maxDR); err != nil {
 			simrt.Count(cNotJudged) // whether AddChannel takes these arguments is not this property's subject
